@@ -64,6 +64,8 @@ def sched_catalogue(prop, tier, drv=0, precs_extra=True, light=False):
     j.append(S(K4B, 2, b2, drv=drv, w=4, ms=4)); j.append(S(K4B, 2, b2, drv=drv, w=4, ms=4, vk=1)); j.append(S(K4B, 3, 1, drv=drv, w=4, ms=1))
     # K5 relaxed supernodes that are not etree paths
     j.append(S('relax6', 2, b2, drv=drv, relax=3)); j.append(S('relax6', 3, 1, drv=drv, relax=3)); j.append(S('tree7', 2, 1, drv=drv, relax=3))
+    # K5b a branching relaxed supernode below a pipeline (seeded change C03-4)
+    j.append(S('bush7', 2, 1, drv=drv, relax=3, vk=1)); j.append(S('bush7', 2, 1 if q else 2, drv=drv, relax=3)); j.append(S('bush7', 3, 1, drv=drv, relax=3, vk=1))
     # K6 off-diagonal pivots (generic values, u=1) vs diagonal (vk=1); K7 singleton supernodes, double pruning
     j.append(S('dense4', 2, b2, drv=drv, ms=1)); j.append(S('dense5', 2, 1 if q else 2, drv=drv, ms=1)); j.append(S('dense4', 3, 1 if q else 2, drv=drv, ms=1))
     j.append(S('dense4', 2, b2, drv=drv, ms=4, vk=1, u=0.1))
